@@ -147,6 +147,11 @@ fn mapping_set(tg: &[String; 6], no_target: Option<usize>, method_row: MethodRow
 			MethodRow::NoRow => {},
 		}
 		c.methods.insert(("k".into(), format!("(L{};L{};)L{};", CLS[3], CLS[5], CLS[0])), MMethod { names: row2("k", Some("kT")), doc: None, params: BTreeMap::new() });
+		if method_row != MethodRow::NoRow {
+			// the method only this class declares: a row in the class that declares it, in no other
+			let only = only_method(i);
+			c.methods.insert(only.clone(), MMethod { names: row2(&only.0, Some(&format!("{}T", only.0))), doc: None, params: BTreeMap::new() });
+		}
 		set.classes.insert(CLS[i].to_owned(), c);
 	}
 	set
@@ -238,30 +243,40 @@ fn remap_want(set: &MSet, e: &Entry) -> RemapWant {
 	let (prefix, rest) = e.inner.split_at(digits);
 	let src_simple = simple_of(&e.class);
 	let tgt_simple = simple_of(&class);
-	let custom = !rest.is_empty() && rest != src_simple;
+	// "derived": the class is named after its inner name — the simple name is the inner name, or ends with it behind
+	// a nesting separator (an already-nested `A__D` / `A$D` with inner name `D`). "custom": the class name does not
+	// end with it at all. A bare suffix without separator (`p/Xyz`, `yz`) is neither clearly: both readings accepted.
+	let derived = !rest.is_empty() && (rest == src_simple || src_simple.ends_with(&format!("__{rest}")) || src_simple.ends_with(&format!("${rest}")));
+	let custom = !rest.is_empty() && !e.class.ends_with(rest);
+	let unclear = !rest.is_empty() && !derived && !custom;
 	if let Some((pre, leaf)) = class.rsplit_once("__") {
 		// the mappings already use nested names: the nesting is read off the target name; where the table says
 		// something else (custom inner name, another enclosing class) the statement does not choose
 		let mut encl = vec![pre.to_owned(), tg(&e.encl)];
 		encl.dedup();
 		let mut inner = vec![leaf.to_owned()];
-		if custom {
+		if custom || unclear {
 			inner.push(e.inner.clone());
 		}
 		return RemapWant { class, encl, method, inner, shape: "pre-nested" };
 	}
+	let derived_name = format!("{prefix}{tgt_simple}");
 	let (inner, shape) = if rest.is_empty() {
 		// a number: kept, except that a calamus-style `C_<number>` target carries its own number
 		match tgt_simple.strip_prefix("C_") {
-			Some(n) if !n.is_empty() && n.chars().all(|c| c.is_ascii_digit()) => (n.to_owned(), "number-calamus"),
-			_ => (e.inner.clone(), "number"),
+			Some(n) if !n.is_empty() && n.chars().all(|c| c.is_ascii_digit()) => (vec![n.to_owned()], "number-calamus"),
+			_ => (vec![e.inner.clone()], "number"),
 		}
 	} else if custom {
-		(e.inner.clone(), "custom")
+		(vec![e.inner.clone()], "custom")
+	} else if unclear {
+		(vec![e.inner.clone(), derived_name], "suffix-without-separator")
+	} else if rest != src_simple {
+		(vec![derived_name], if prefix.is_empty() { "derived-from-already-nested-name" } else { "derived-local-from-already-nested-name" })
 	} else {
-		(format!("{prefix}{tgt_simple}"), if prefix.is_empty() { "derived" } else { "derived-local" })
+		(vec![derived_name], if prefix.is_empty() { "derived" } else { "derived-local" })
 	};
-	RemapWant { class, encl: vec![tg(&e.encl)], method, inner: vec![inner], shape }
+	RemapWant { class, encl: vec![tg(&e.encl)], method, inner, shape }
 }
 
 fn check_remap_nests(ctx: &Ctx, st: &mut Stats, set: &MSet, t: &[Entry], replay: &dyn Fn() -> String) {
@@ -498,19 +513,24 @@ fn check_jar(ctx: &Ctx, st: &mut Stats, fx: &Fixture, t: &[Entry], replay: &dyn 
 	if alts.is_empty() {
 		fatal("the reference lists no allowed outcome");
 	}
-	let mut best: Option<(usize, Vec<(String, String)>)> = None;
+	let mut best: Option<(usize, jar::Cmp)> = None;
 	for (i, a) in alts.iter().enumerate() {
-		let d = jar::compare(fx, t, a, &out);
-		if best.as_ref().is_none_or(|b| d.len() < b.1.len()) {
-			let done = d.is_empty();
-			best = Some((i, d));
+		let c = jar::compare(fx, t, a, &out);
+		if best.as_ref().is_none_or(|b| c.diffs.len() < b.1.diffs.len()) {
+			let done = c.diffs.is_empty();
+			best = Some((i, c));
 			if done {
 				break;
 			}
 		}
 	}
-	let (ai, diffs) = best.unwrap_or_else(|| fatal("no alternative"));
+	let (ai, jar::Cmp { diffs, notes }) = best.unwrap_or_else(|| fatal("no alternative"));
 	let alt: &Alt = &alts[ai];
+	if diffs.is_empty() {
+		for n in notes {
+			st.outcome(n);
+		}
+	}
 	if !diffs.is_empty() {
 		st.outcome("nest_jar:differs");
 		let shown = || format!("{}real result: {:?}\n", replay(), out.classes.iter().map(|c| (c.entry.clone(), c.class.this_class.to_string_lossy(), c.class.inner_classes.clone(), c.class.enclosing_method.clone())).collect::<Vec<_>>());
@@ -526,6 +546,17 @@ fn check_jar(ctx: &Ctx, st: &mut Stats, fx: &Fixture, t: &[Entry], replay: &dyn 
 			st.outcome(&format!("info:silent-case:outcome-taken:{}", if alt.created.is_empty() { "nothing-created" } else if alt.applied.iter().zip(t).any(|(a, e)| *a && !fx.present(&e.class)) { "created-class-nested-too" } else { "created" }));
 		}
 		for (e, a) in t.iter().zip(&alt.applied) {
+			if fx.present(&e.class) {
+				if let Some(m) = &e.method {
+					let which = if (m.0.as_str(), m.1.as_str()) == M_OTHER_NAME { Some("declared-nowhere-with-the-descriptor-of-a-declared-one") } else if m.0.starts_with("only") { Some("declared-by-the-nested-class-only") } else { None };
+					if let Some(which) = which {
+						st.outcome(&format!("nest_jar:method-{which}:{}:{}", e.ty.name(), if *a { "applied" } else { "rejected" }));
+					}
+				}
+				if e.ty == Ty::Anon && e.inner.len() > 1 && e.inner.chars().all(|c| c.is_ascii_digit()) {
+					st.outcome(&format!("nest_jar:anonymous-number-of-several-digits:{}:{}", if e.inner.len() > 2 { if e.inner.starts_with('0') { "zeros" } else { "i32-max" } } else if e.inner == "00" { "zeros" } else { "two-digits" }, if *a { "applied" } else { "rejected" }));
+				}
+			}
 			if *a {
 				st.outcome(&format!("nest_jar:applied:{}", e.ty.name()));
 				verdict.renamed += 1;
@@ -562,7 +593,7 @@ fn check_jar(ctx: &Ctx, st: &mut Stats, fx: &Fixture, t: &[Entry], replay: &dyn 
 
 /// One table: jar, mappings (plain target names), agreement.
 fn check_table(ctx: &Ctx, st: &mut Stats, fx: &Fixture, plain: &(MSet, Maps), t: &[Entry], with_mappings: bool) {
-	let replay = || format!("mode=table\n{}", table_text(t));
+	let replay = || format!("mode=table\n{}{}", fx.variant.map_or(String::new(), |v| format!("variant={v}\n")), table_text(t));
 	let jv = check_jar(ctx, st, fx, t, &replay);
 	if !with_mappings {
 		return;
@@ -615,12 +646,17 @@ enum Orders {
 }
 
 fn sweep_tables(ctx: &'static Ctx, fx: &Fixture, plain: &(MSet, Maps), space: &TableSpace, orders: Orders, stats_prefix: &str) -> Stats {
+	sweep_tables_on(ctx, fx, plain, space, orders, stats_prefix, true)
+}
+
+/// `with_mappings = false`: the jar side only (variant jars; the mappings side does not see the jar)
+fn sweep_tables_on(ctx: &'static Ctx, fx: &Fixture, plain: &(MSet, Maps), space: &TableSpace, orders: Orders, stats_prefix: &str, with_mappings: bool) -> Stats {
 	let n = space.count();
 	let chunk = 64u64;
 	let mut st = (0..n.div_ceil(chunk)).into_par_iter().fold(Stats::new, |mut st, c| {
 		let lo = c * chunk;
 		let hi = (lo + chunk).min(n);
-		vcore::watched(|| format!("tables size={} menu={} index {lo}..{hi}", space.size, space.menu.len()), || {
+		vcore::watched(|| format!("tables size={} menu={} jar={:?} index {lo}..{hi}", space.size, space.menu.len(), fx.variant), || {
 			for idx in lo..hi {
 				let t = space.nth(idx);
 				if has_cycle(&t) {
@@ -629,7 +665,7 @@ fn sweep_tables(ctx: &'static Ctx, fx: &Fixture, plain: &(MSet, Maps), space: &T
 				}
 				if orders != Orders::ReversedOnly {
 					st.outcome("space:tables");
-					check_table(ctx, &mut st, fx, plain, &t, true);
+					check_table(ctx, &mut st, fx, plain, &t, with_mappings);
 				}
 				if orders != Orders::Canonical && t.len() >= 2 {
 					let mut r = t.clone();
@@ -888,13 +924,14 @@ fn main() {
 	let s0 = TableSpace::new(0, KINDS_FULL);
 	let s1 = TableSpace::new(1, KINDS_FULL);
 	let s2 = TableSpace::new(2, KINDS_FULL);
+	let s2o = TableSpace::new(2, &KINDS_FULL[..OLD]);
 	let s2c = TableSpace::new(2, &KINDS_FULL[..CORE]);
 	let s2m = TableSpace::new(2, &KINDS_FULL[..MEDIUM]);
 	let s3 = TableSpace::new(3, if quick { KINDS_MINI } else { &KINDS_FULL[..8] });
 	let s3r = TableSpace::new(3, KINDS_MINI);
 	let s4 = TableSpace::new(4, &KINDS_MINI[..3]);
 	run("tables-of-0", sweep_tables(ctx, &fx, &plain, &s0, Orders::Canonical, "s0"));
-	run("tables-of-1 (22 kinds)", sweep_tables(ctx, &fx, &plain, &s1, Orders::Canonical, "s1"));
+	run(&format!("tables-of-1 ({} kinds)", KINDS_FULL.len()), sweep_tables(ctx, &fx, &plain, &s1, Orders::Canonical, "s1"));
 	let smoke = std::env::var_os("C14_SMOKE").is_some();
 	if smoke {
 		ctx.note("C14_SMOKE: development run over tables of <= 1 entry only (not a tier)".to_string());
@@ -902,10 +939,25 @@ fn main() {
 		run("tables-of-2 (12 kinds, both orders)", sweep_tables(ctx, &fx, &plain, &s2m, Orders::Both, "s2"));
 		run("tables-of-3 (4 kinds)", sweep_tables(ctx, &fx, &plain, &s3, Orders::Canonical, "s3"));
 	} else {
-		run("tables-of-2 (22 kinds, both orders)", sweep_tables(ctx, &fx, &plain, &s2, Orders::Both, "s2"));
+		run(&format!("tables-of-2 ({} kinds, both orders)", KINDS_FULL.len()), sweep_tables(ctx, &fx, &plain, &s2, Orders::Both, "s2"));
 		run("tables-of-3 (8 kinds)", sweep_tables(ctx, &fx, &plain, &s3, Orders::Canonical, "s3"));
 		run("tables-of-3 in reverse order (4 kinds)", sweep_tables(ctx, &fx, &plain, &s3r, Orders::ReversedOnly, "s3r"));
 		run("tables-of-4 (3 kinds, all applying)", sweep_tables(ctx, &fx, &plain, &s4, Orders::Canonical, "s4"));
+	}
+
+	// S1b: the variant jars (classes that already carry nesting attributes; further reference positions): jar side
+	let variants: Vec<Fixture> = (0..jar::VARIANTS).map(|v| Fixture::build(Some(v))).collect();
+	for vf in &variants {
+		let v = vf.variant.unwrap_or(0);
+		run(&format!("variant-jar-{v}: tables-of-1 ({} kinds)", KINDS_FULL.len()), sweep_tables_on(ctx, vf, &plain, &s1, Orders::Canonical, "v1", false));
+		if smoke {
+			continue;
+		}
+		if quick {
+			run(&format!("variant-jar-{v}: tables-of-2 (6 kinds)"), sweep_tables_on(ctx, vf, &plain, &s2c, Orders::Canonical, "v2", false));
+		} else {
+			run(&format!("variant-jar-{v}: tables-of-2 (12 kinds, both orders)"), sweep_tables_on(ctx, vf, &plain, &s2m, Orders::Both, "v2", false));
+		}
 	}
 
 	// S2: remap_nests and apply/undo over styled target names
@@ -913,9 +965,9 @@ fn main() {
 	static ENCL_PLAIN: [Style; 1] = [Style::Plain];
 	static ALL_ROWS: [MethodRow; 3] = [MethodRow::Renamed, MethodRow::NoRow, MethodRow::SameName];
 	static ONE_ROW: [MethodRow; 1] = [MethodRow::Renamed];
-	run("styled-tables-of-1 (22 kinds)", sweep_styled(ctx, &s1, &ENCL_STYLES, &ALL_ROWS));
+	run(&format!("styled-tables-of-1 ({} kinds)", KINDS_FULL.len()), sweep_styled(ctx, &s1, &ENCL_STYLES, &ALL_ROWS));
 	if !smoke {
-		run(if quick { "styled-tables-of-2 (6 kinds)" } else { "styled-tables-of-2 (22 kinds)" }, sweep_styled(ctx, if quick { &s2c } else { &s2 }, &ENCL_PLAIN, &ONE_ROW));
+		run(if quick { "styled-tables-of-2 (6 kinds)" } else { "styled-tables-of-2 (22 kinds)" }, sweep_styled(ctx, if quick { &s2c } else { &s2o }, &ENCL_PLAIN, &ONE_ROW));
 	}
 
 	// S3: information only
@@ -949,6 +1001,23 @@ fn main() {
 		ctx.floor(&format!("remap_nests: inner names of shape {shape}"), 1, s.get(&format!("remap_nests:inner-name-shape:{shape}")));
 	}
 	ctx.floor("zip: tables with the same result through a real archive", 100, s.get("zip:same-result-as-in-memory"));
+	for shape in ["derived-from-already-nested-name", "derived-local-from-already-nested-name"] {
+		ctx.floor(&format!("remap_nests: inner names of shape {shape}"), 1, s.get(&format!("remap_nests:inner-name-shape:{shape}")));
+	}
+	for note in [
+		"leftover:enclosing-method-of-another-class-replaced", "leftover:enclosing-method-of-another-method-replaced", "leftover:enclosing-method-equal-to-the-nest's",
+		"leftover:enclosing-method-passed-through", "leftover:enclosing-method-passed-through-with-rewritten-reference",
+		"leftover:inner-classes-entry-for-the-class-itself-next-to-the-nest's", "leftover:inner-classes-entry-equal-to-the-nest's-next-to-it",
+	] {
+		ctx.floor(&format!("variant jars: {note}"), 1, s.get(note));
+	}
+	for (what, n) in [
+		("nest_jar:method-declared-by-the-nested-class-only:local:rejected", 1), ("nest_jar:method-declared-by-the-nested-class-only:inner:applied", 1), ("nest_jar:method-declared-by-the-nested-class-only:anonymous:applied", 1),
+		("nest_jar:method-declared-nowhere-with-the-descriptor-of-a-declared-one:local:rejected", 1), ("nest_jar:method-declared-nowhere-with-the-descriptor-of-a-declared-one:inner:applied", 1),
+		("nest_jar:anonymous-number-of-several-digits:two-digits:applied", 1), ("nest_jar:anonymous-number-of-several-digits:i32-max:applied", 1), ("nest_jar:anonymous-number-of-several-digits:zeros:rejected", 1),
+	] {
+		ctx.floor(what, n, s.get(what));
+	}
 	for site in &panic_sites {
 		ctx.note(format!("outside the stated space (row without target name), information only: panic in {site}"));
 	}
@@ -1062,7 +1131,7 @@ fn profile(fx: &Fixture, plain: &(MSet, Maps)) -> ! {
 	let mut n = 0;
 	for (t, o) in tables.iter().zip(&outs) {
 		for alt in jar::alternatives(fx, t) {
-			n += jar::compare(fx, t, &alt, o).len();
+			n += jar::compare(fx, t, &alt, o).diffs.len();
 		}
 	}
 	let c = t0.elapsed();
